@@ -1,0 +1,29 @@
+//go:build verif
+
+package res
+
+// Verification hooks (build tag "verif" only). With the tag off the functions
+// in verif_nohooks.go are used instead and compile to nothing.
+
+// VerifNoteFn, when set, is called at instrumentation points with the name of
+// the point, the worker ID concerned and a number (a queue length or index).
+// Notes named "w.*", "s.enq.*" and "c.close" are made while holding the
+// service mutex, so the mutex orders them. It must not block and must not
+// call into the service.
+var VerifNoteFn func(point string, wid string, n int)
+
+// VerifGateFn, when set, is called at points outside of any critical section
+// where a goroutine may be held to steer the schedule. It may block.
+var VerifGateFn func(point string)
+
+func verifNote(point string, wid string, n int) {
+	if f := VerifNoteFn; f != nil {
+		f(point, wid, n)
+	}
+}
+
+func verifGate(point string) {
+	if f := VerifGateFn; f != nil {
+		f(point)
+	}
+}
